@@ -269,6 +269,42 @@ def oracle_c06(tr, sc):
     return True
 
 
+class _MpiCtx:
+    pass
+
+
+class _MpiTrace:
+    pass
+
+
+def c06_view_of_mpi_run(recs, sc, res):
+    """The observations of all time ranks of one simulated controller_MPI run, merged into the shape oracle_c06 judges."""
+    per_rank = {r['rec']['time_rank']: r['rec'] for r in recs if r['rec'] is not None and r['rec'].get('node_rank', 0) == 0}
+    attempts = []
+    for t, rec in sorted(per_rank.items()):
+        for a in rec['attempts']:
+            attempts.append({'block': a['block'], 'slot': a['slot'], 't': a['t'], 'dt': a['dt'], 'post': a['post'], 'iter': a['iter'],
+                             'restart_final': bool(a['restart_final']), 'u0_post': a['u0_post_arr'], 'uend': a['uend_arr']})
+    attempts.sort(key=lambda a: (a['block'], a['slot']))
+    blocks = []
+    nb = max([a['block'] for a in attempts], default=-1) + 1
+    for b in range(nb):
+        mine = [a for a in attempts if a['block'] == b]
+        flags = [a['restart_final'] for a in mine]
+        ra = flags.index(True) if True in flags else len(flags)
+        for i, a in enumerate(mine):
+            a['accepted'] = i < ra  # controller_MPI.run: the next block starts at the first step that asks for a restart
+        blocks.append({'index': b, 'active_slots': [a['slot'] for a in mine], 'restart_at': ra, 'final': [{'restart': f} for f in flags]})
+    ctx = _MpiCtx()
+    ctx.attempts, ctx.blocks, ctx.problems = attempts, blocks, []
+    tr = _MpiTrace()
+    tr.ctx, tr.res, tr.exc = ctx, res, None
+    tr.u0_before = per_rank[0]['u0_before']
+    tr.ret_copy = per_rank[0].get('ret_arr')
+    tr.per_rank = per_rank
+    return tr
+
+
 def probes_c06(tr, sc):
     ctx, res = tr.ctx, tr.res
     cfg = sc['config']
